@@ -108,6 +108,9 @@ def main():
         todo = [m for m in muts if m['id'] not in done]
         if '--redo-survivors' in sys.argv:
             todo = [m for m in muts if done.get(m['id'], {}).get('status') in ('survived', 'broken')]
+        if '--ids' in sys.argv:
+            ids = set(json.load(open(sys.argv[sys.argv.index('--ids') + 1])))
+            todo = [m for m in muts if m['id'] in ids]
         if '--only' in sys.argv:
             ops = sys.argv[sys.argv.index('--only') + 1].split(',')
             todo = [m for m in todo if m['op'] in ops]
